@@ -868,7 +868,9 @@ def fuzzy_anchor(body_text, lit):
         return None
     m = re.search(r'[=(]', want)
     head = len(want[:m.end()]) if m else len(want.split(' ')[0])
-    need = max(head, 6)
+    m2 = re.match(r'\w+\W+\w+', want)          # first two words, e.g. `if argument` of `if argument.is_empty() {`
+    two = len(m2.group(0)) if m2 else len(want)
+    need = max(6, min(head, two))
     cands = []
     off = 0
     for line in body_text.split('\n'):
